@@ -239,6 +239,13 @@ def _start_reach_counters():
 
 def _dump(w, out, res):
     res = dict(res)
+    try:
+        from xv import model as _m
+        for k, v in getattr(_m, "STATS", {}).items():
+            w.counters[k] = w.counters.get(k, 0) + v
+        _m.STATS.clear()
+    except Exception:
+        pass
     res.update(
         evaluations=w.evaluations,
         sigs=sorted(w.sigs),
